@@ -16,7 +16,9 @@ func run(c *common.Ctx) error {
 	depth := c.Scale(6, 7)
 	s := &common.Std{
 		Rule: fmt.Sprintf("exhaustive: every source of ≤%d symbols over {a, é (2 bytes), \\n} × every byte range 0≤from≤to≤len, "+
-			"plus out-of-range ranges and random longer multi-line sources; non-trivial = range non-empty or source has a newline; distinct by op line", depth),
+			"plus out-of-range ranges and random longer multi-line sources; plus end-to-end ops: every diag.Context of the parse errors, "+
+			"compilation errors and exception tracebacks that generated failing elvish programs really produce (via eval.Evaler.Eval); "+
+			"non-trivial = range non-empty or source has a newline; distinct by op line", depth),
 		ExhaustiveNote: fmt.Sprintf("sources ≤%d symbols × all in-range byte ranges", depth),
 		Exhaustive:     false,
 		Gen: func(c *common.Ctx, emit func(...string)) {
@@ -56,10 +58,15 @@ func run(c *common.Ctx) error {
 				t := c.Rand.Range(f, len(src))
 				emit("ctx", common.Hex(src), strconv.Itoa(f), strconv.Itoa(t))
 			}
+			// end-to-end: contexts of real parse / compilation errors and tracebacks
+			genE2E(c, emit)
 		},
 		Impl:   impl,
 		Oracle: oracle,
 		Tag: func(f []string, out string) string {
+			if f[0] == "e2e" {
+				return tagE2E(f, out)
+			}
 			src := common.Unhex(f[1])
 			if out == "PANIC" {
 				return "out-of-range"
@@ -87,7 +94,7 @@ func run(c *common.Ctx) error {
 	return s.Run(c)
 }
 
-func parse(f []string) (src string, from, to int) {
+func parseOp(f []string) (src string, from, to int) {
 	src = common.Unhex(f[1])
 	from, _ = strconv.Atoi(f[2])
 	to, _ = strconv.Atoi(f[3])
@@ -95,8 +102,21 @@ func parse(f []string) (src string, from, to int) {
 }
 
 func impl(_ any, f []string) string {
-	src, from, to := parse(f)
-	c := diag.NewContext("n", src, diag.Ranging{From: from, To: to})
+	if f[0] == "e2e" {
+		return implE2E(f)
+	}
+	src, from, to := parseOp(f)
+	return format(diag.NewContext("n", src, diag.Ranging{From: from, To: to}))
+}
+
+// format prints a Context canonically (name "n" assumed).
+func format(c *diag.Context) string {
+	return fmt.Sprintf("%d %d %d %d %s %s %s %s", c.StartLine, c.StartCol, c.EndLine, c.EndCol,
+		common.Hex(c.Body), common.Hex(c.Head), common.Hex(c.Tail), descOf(c))
+}
+
+// descOf returns what describeRange produced, without the "<name>:" prefix.
+func descOf(c *diag.Context) string {
 	// describeRange is unexported: take it from Show's first line.
 	show := c.Show("")
 	desc := show
@@ -107,9 +127,7 @@ func impl(_ any, f []string) string {
 		// "<range>: <text>": the range has no space and no "\x1b"
 		desc = show[:strings.Index(show, ": ")]
 	}
-	desc = strings.TrimPrefix(desc, "n:")
-	return fmt.Sprintf("%d %d %d %d %s %s %s %s", c.StartLine, c.StartCol, c.EndLine, c.EndCol,
-		common.Hex(c.Body), common.Hex(c.Head), common.Hex(c.Tail), desc)
+	return strings.TrimPrefix(desc, c.Name+":")
 }
 
 // lineCol returns the 1-based line of byte offset off and the offset of that
@@ -127,14 +145,22 @@ func lineCol(src string, off int) (line, lineStart int) {
 
 // oracle evaluates C37's statement directly.
 func oracle(_ any, f []string, out string) (string, string) {
-	src, from, to := parse(f)
+	if f[0] == "e2e" {
+		return oracleE2E(f, out)
+	}
+	src, from, to := parseOp(f)
 	if from < 0 || to < from || to > len(src) {
 		return "", "" // outside the property's quantifier
 	}
 	if out == "PANIC" || out == "TIMEOUT" {
 		return "crash-in-range", out
 	}
-	c := diag.NewContext("n", src, diag.Ranging{From: from, To: to})
+	return checkCtx(src, diag.NewContext("n", src, diag.Ranging{From: from, To: to}))
+}
+
+// checkCtx evaluates C37's statement on a Context whose range lies in src.
+func checkCtx(src string, c *diag.Context) (string, string) {
+	from, to := c.From, c.To
 	// start: identifies the first byte of the range
 	l, ls := lineCol(src, from)
 	if c.StartLine != l || c.StartCol != from-ls+1 {
@@ -165,6 +191,20 @@ func oracle(_ any, f []string, out string) (string, string) {
 	}
 	if c.Head+c.Body+c.Tail != src[firstLS:lastLE] || strings.Contains(c.Head, "\n") || strings.Contains(c.Tail, "\n") {
 		return "context-text", fmt.Sprintf("head+body+tail=%q want %q", c.Head+c.Body+c.Tail, src[firstLS:lastLE])
+	}
+	// the reported description: one position iff the adjusted range is empty,
+	// l:c-c on one line, l:c-l:c otherwise, with the positions derived above
+	var wantDesc string
+	switch {
+	case to2 == from:
+		wantDesc = fmt.Sprintf("%d:%d", l, from-ls+1)
+	case wantEndLine == l:
+		wantDesc = fmt.Sprintf("%d:%d-%d", l, from-ls+1, wantEndCol)
+	default:
+		wantDesc = fmt.Sprintf("%d:%d-%d:%d", l, from-ls+1, wantEndLine, wantEndCol)
+	}
+	if got := descOf(c); got != wantDesc {
+		return "range-description", fmt.Sprintf("got %q want %q", got, wantDesc)
 	}
 	return "", ""
 }
